@@ -3343,7 +3343,113 @@ def _rep_settings(ctx, mode, pattern):
     return go
 
 
-PROPS = {"C29": c29, "C33": c33, "C34": c34, "C31": c31, "C32": c32, "C25": c25, "C01": c01, "C09": c09, "C10": c10, "C36": c36}
+# =========================================================================== C35 (rune balance lists)
+
+def c35(ctx):
+    """Index::encode_rune_balance / decode_rune_balance (text extracted from src/index.rs) at the
+    integer level: every LEB128 group is one list element (the byte codec itself is C26)."""
+    from .mirmodels import Container
+    from . import mirmodels as M
+    U64_, U32_ = 2 ** 64 - 1, 2 ** 32 - 1
+
+    def read_back(ob, exq, entries, pc, items):
+        # read the list back entry by entry
+        at = 0
+        for k, (b, t, bal) in enumerate(entries):
+            if at >= len(items):
+                ob.query(pc, False, ob.vars, "the stored list ends before entry %d" % k)
+                return
+            st2 = X.State(); st2.pc = list(pc)
+            res = exq.run("balance_extract::_::decode_rune_balance", [X.Ref([Container("slice", items[at:])])], st2)
+            ob.paths += len(res)
+            nxt = None
+            for r in res:
+                if r.kind != "return":
+                    ob.reach(r.pc, "decode_rune_balance panics: " + r.msg)
+                    continue
+                if r.value.variant != 0:
+                    ob.reach(r.pc, "decode_rune_balance rejects a list written by encode_rune_balance")
+                    continue
+                (rid_, rbal), ln = r.value.fields[0][0], r.value.fields[0][1]
+                if not X.is_conc(ln):
+                    raise Unsupported("symbolic entry length")
+                ob.query(r.pc, z3.And(X.zint(rid_[0]) == b, X.zint(rid_[1]) == t, X.zint(rbal) == bal), ob.vars,
+                         "entry %d of a rune balance list does not read back as written" % k)
+                nxt = (at + ln, list(r.pc))
+            if nxt is None:
+                return
+            at, pc = nxt
+        ob.query(pc, z3.BoolVal(at == len(items)), ob.vars, "the stored list holds more than the entries written")
+
+    def make_body(n):
+        def body(ob):
+            exq = ob.ex()
+            pre, vars_, entries = [], {}, []
+            for k in range(n):
+                b, t, bal = z3.Int("r%d_block" % k), z3.Int("r%d_tx" % k), z3.Int("r%d_balance" % k)
+                vars_.update({"r%d_block" % k: b, "r%d_tx" % k: t, "r%d_balance" % k: bal})
+                pre += [b >= 0, b <= U64_, t >= 0, t <= U32_, bal >= 0, bal <= U128]
+                entries.append((b, t, bal))
+            ob.vars = vars_
+            def ov_enc(e, st_, a):
+                buf = a[1]
+                while isinstance(buf, X.Ref):
+                    buf = buf.get()
+                buf.append(a[0])
+                st_.keep.append(a[0])
+                return Struct([])
+            def ov_dec(e, st_, a):
+                sl = M.deref(a[0])
+                if len(sl) == 0:
+                    return Enum("Result", 1, [X.Opaque("varint error")])
+                return Enum("Result", 0, [Struct([sl[0], 1])])
+            exq.overrides = {r"^(.*::)?encode_to_vec$": ov_enc, r"^(.*::)?varint::decode$|^decode$": ov_dec}
+            try:
+                # write the list: every path of encode_rune_balance is followed (the items written so far
+                # travel in the path state)
+                paths = [(list(pre), [])]
+                for (b, t, bal) in entries:
+                    nxt_paths = []
+                    for pc0, items0 in paths:
+                        buf = X.Ref([Container("vec", list(items0))], (), True)
+                        st = X.State(); st.pc = list(pc0); st.keep = list(items0)
+                        for r in exq.run("balance_extract::_::encode_rune_balance", [Struct([b, t]), bal, buf], st):
+                            ob.paths += 1
+                            if r.kind != "return":
+                                ob.reach(r.pc, "encode_rune_balance panics: " + r.msg)
+                                continue
+                            nxt_paths.append((list(r.pc), list(r.keep)))
+                    paths = nxt_paths
+                for pc_end, items in paths:
+                    read_back(ob, exq, entries, pc_end, items)
+            finally:
+                exq.overrides = {}
+        return body
+
+    def rep(n):
+        def go(v):
+            from . import kani as K
+            crate = K.gen_lift()
+            spec = ",".join("%d:%d:%d" % (v.get("r%d_block" % k, 0), v.get("r%d_tx" % k, 0), v.get("r%d_balance" % k, 0)) for k in range(n))
+            env = C.env({"VREPLAY_BAL": spec, "CARGO_TARGET_DIR": os.path.join(C.BUILD, "t-liftk-replay")})
+            p = subprocess.run(["cargo", "test", "--offline", "--lib", "vreplay_balance", "--", "--nocapture"], cwd=crate, env=env,
+                               stdout=subprocess.PIPE, stderr=subprocess.STDOUT, universal_newlines=True, timeout=1800)
+            if "running 1 test" not in p.stdout:
+                raise RuntimeError("replay test did not run: " + p.stdout[-500:])
+            if "test result: FAILED" in p.stdout:
+                m = re.search(r"BALANCES (.*)", p.stdout)
+                return {"written": spec, "read_back": m.group(1)[:300] if m else "panic"}
+            return None
+        return go
+
+    for n in ((1, 2, 3) if ctx.tier == "quick" else (1, 2, 3, 4, 5)):
+        guarded(ctx, "c35_rune_balance_list_n%d" % n,
+                "a rune balance list of %d entries written by Index::encode_rune_balance reads back, entry by entry, exactly as written through Index::decode_rune_balance, and nothing else is in it" % n,
+                "%d entries; every id (u64 block, u32 tx) and every u128 balance including 0; integer level: each LEB128 group is one list element (varint::encode_to_vec / varint::decode replaced by append / read one element; the byte codec is C26)" % n,
+                "lift-dev", make_body(n), rep(n))
+
+
+PROPS = {"C29": c29, "C33": c33, "C34": c34, "C31": c31, "C32": c32, "C25": c25, "C01": c01, "C09": c09, "C10": c10, "C36": c36, "C35": c35}
 
 
 def main():
